@@ -77,7 +77,7 @@ def _enum(tier):
 
 
 def count(tier):
-    return len(_enum(tier)) + (150 if tier == "quick" else 4000)
+    return len(_enum(tier)) + (600 if tier == "quick" else 6000)
 
 
 def exhaustive(tier):
@@ -137,6 +137,14 @@ def make(i, base_seed, tier):
         faults_desc = [{"kind": rng.choice(["nack", "fwd"]), "pos": rng.choice([0, 1])}] if rng.random() < 0.5 else []
         cross = {"from": 0o11, "to": rng.choice([0o3, 0o33]), "delay_ms": rng.choice([0, 0, 1, 1, 2, 3, 8, 20]), "type": rng.choice([65, 90, 127]),
                  "slow_sender": rng.random() < 0.6}
+        xr = stream(seed, "ext")
+        if xr.random() < 0.5:
+            # explicit fault: from the moment the sender's radio stores the relayed frame its own transmissions are lost for a few
+            # milliseconds - the first attempt to pass that frame on fails, the re-transmissions of the stand-by phase get through
+            cross["mute_ms"] = xr.choice([3, 6, 10, 15])
+            cross["delay_ms"] = xr.choice([0, 1, 2, 3, 4, 5, 6, 8])
+            cross["slow_sender"] = True
+            faults_desc = []
     path = netref.path(src, dst)
     faults = []
     for f in faults_desc:
@@ -187,6 +195,17 @@ def _run(scn, w, net, res):
             # a slow sender finds several frames in its RX FIFO in one pass (its own NETWORK_ACK and relayed ones)
             kn = dict(kn, spi_overhead_us=400, spi_jitter_us=100)
         net.add(nd["addr"], "net", nd["addr"], knobs=kn, setup=setup)
+    if scn.get("cross") and scn["cross"].get("mute_ms") and scn["src"] in net.nodes:
+        cr = scn["cross"]
+        fired = []
+
+        def on_store(pipe, data_):
+            if not fired and len(data_) >= 8 and data_[6] == cr["type"] and (data_[0] | (data_[1] << 8)) == cr["from"]:
+                fired.append(sim.now)
+                w.air.mute.add("n%s" % scn["src"])
+                sim.after(cr["mute_ms"] * MS, w.air.mute.discard, "n%s" % scn["src"])
+                sim.count("fault:mute_on_relayed_frame")
+        net.nodes[scn["src"]].radio.on_store = on_store
     net.start()
     sim.advance(3 * MS)
     src, dst, typ = scn["src"], scn["dst"], scn["type"]
